@@ -355,7 +355,9 @@ def _engine_db() -> dict:
     vt_members, vt_alias = enum_members(_cls(fgd_tree, 'ValueTypes'))
     et_members, _ = enum_members(_cls(fgd_tree, 'EntityTypes'))
     ft_members, ft_alias = enum_members(_cls(const_tree, 'FileType'))
-    ef_members, _ = enum_members(_cls(tree, 'EntFlags'))
+    ef_members, ef_alias = enum_members(_cls(tree, 'EntFlags'))
+    # IntFlag: a name with the value of an earlier member is an alias of it (MASK_TYPE == TYPE_EXTEND); keep every name
+    ef_members = ef_members + [(a, dict(ef_members)[c]) for a, c in ef_alias.items()]
     vt_order = [vt_alias.get(n, n) for n in _attr_list(_module_assign(tree, 'VALUE_TYPE_ORDER'), 'ValueTypes', 'VALUE_TYPE_ORDER')]
     ft_order = [ft_alias.get(n, n) for n in _attr_list(_module_assign(tree, 'FILE_TYPE_ORDER'), 'FileType', 'FILE_TYPE_ORDER')]
     e2f = _module_assign(tree, 'ENTITY_TYPE_2_FLAG')
